@@ -35,6 +35,9 @@ def jobs(tier):
     for sh in b["shapes"]:
         for leaf in b["leaves"]:
             out.append({"name": "%s/%s" % (sh, leaf), "shape": sh, "leaf": leaf, "depth": b["depth"], "tier": tier})
+    for sh in ("nested+late", "cfglist+late"):
+        for leaf in ["int09", "str-norm", "list-int", "dict-typed", "bool"] + ["int-cd", "list-int-cd"]:
+            out.append({"name": "%s/%s" % (sh, leaf), "shape": sh, "leaf": leaf, "depth": b["depth"], "tier": tier})
     for sh in ("nested+env", "cfglist+env"):
         for leaf in (b["leaves"] if tier == "thorough" else ["int09", "str-norm", "bool", "list-int", "dict-typed", "int-cd"]):
             out.append({"name": "%s/%s" % (sh, leaf), "shape": sh, "leaf": leaf, "depth": b["depth"], "tier": tier})
